@@ -97,10 +97,15 @@ CLAIMED["C01"] = dict(
           "evaluation and that evaluation was made AT the returned velocity; RUNAWAY => pressure at the top negative and no velocity; "
           "unsuccessful => ERROR; loop contract for the vMin doubling loop; no solver state of an earlier call is read before being rewritten "
           "(stale-state obligations on pressAbsErrTol and both flags). Deflagration entry point: window [vMin, min(vJ, fastestDeflag)], initial "
-          "wall 5/Tn. Manager: setupWallSolver builds a fresh grid/Boltzmann solver/EOM per call, writes no manager attribute."),
+          "wall 5/Tn. Manager: setupWallSolver builds a fresh grid/Boltzmann solver/EOM per call, writes no manager attribute and reads no "
+          "attribute an earlier call could have left behind (stale-by-default pre-state). Frame of wallPressure checked on the AST (only the "
+          "two flags are written; collaborator calls inside an allow-list); free energies evaluated inside their table. "
+          "findWallVelocityDetonation with a loop contract: every solution comes from solveWall on a step whose ends have pressures <=0 and "
+          ">=0; RUNAWAY only if the pressure was non-positive at every velocity evaluated, including the top of the window."),
     note=COMMON_NOTE + " Assumed contract of EOM.wallPressure (its inner pressure iteration and Nelder-Mead are not verified): deterministic "
          "function of its arguments and pressAbsErrTol; frame = the two flags. Brackets narrower than the hard-wired 1e-10 are excluded. "
-         "Not decided: findWallVelocityDetonation (adaptive stepping), convergence of the pressure iteration, includeOffEq=True error estimates.",
+         "helpers.nextStepDeton is an assumed contract (returns a velocity between pos2 and posMax). "
+         "Not decided: convergence of the pressure iteration, includeOffEq=True error estimates.",
     design="3 (C01)")
 CLAIMED["C04"] = dict(
     level="proof",
